@@ -5,7 +5,9 @@ CONSTANTS
   MaxObj = 3
   Configs <- AllConfigs
   Lite = TRUE
+  Hold = FALSE
+  DrainAll = TRUE
   RejectChecksSlot = FALSE
-INVARIANTS TypeOK M1 M1b M1c M2 M3 M4 M4b
+INVARIANTS TypeOK M1 M1d M1b M1c M2 M3 M4 M4b
 VIEW View
 CHECK_DEADLOCK FALSE
